@@ -505,6 +505,22 @@ func runC15(c *fw.Ctx) {
 			}
 			idx++
 		}
+		// directed: an entry that carries a plain (non-skip) annotation is not revoked -
+		// the reference goes to / is published with that entry's state
+		shared := []c15Entry{{Kind: "ref", Ref: "refs/heads/a", Commit: 1}, {Kind: "ref", Ref: "refs/heads/main", Commit: 0}}
+		for _, v := range []c15Case{
+			{Op: op, LocalRefs: "at-entry", Shared: shared,
+				Remote: []c15Entry{{Kind: "ref", Ref: "refs/heads/main", Commit: 1}, {Kind: "ref", Ref: "refs/heads/main", Commit: 2}, {Kind: "annot", Targets: []int{3}, Skip: false}}},
+			{Op: op, LocalRefs: "at-entry", Shared: shared,
+				Local: []c15Entry{{Kind: "ref", Ref: "refs/heads/a", Commit: 2}, {Kind: "annot", Targets: []int{2}, Skip: false}}},
+			{Op: op, LocalRefs: "at-entry", Shared: shared,
+				Remote: []c15Entry{{Kind: "ref", Ref: "refs/heads/main", Commit: 1}, {Kind: "ref", Ref: "refs/heads/main", Commit: 2}, {Kind: "annot", Targets: []int{3}, Skip: true}}},
+		} {
+			if c.Mine(idx) {
+				c15Judge(c, v)
+			}
+			idx++
+		}
 	}
 }
 
